@@ -142,6 +142,7 @@ pub fn base_swarm(r: &mut Rng) -> GenCfg {
         resurrect_bias: 3,
         barrier_only_cb: 1,
         settle_after_adoption: false,
+        bare_bias: [0, 2, 4][r.below(3)],
     }
 }
 
@@ -214,6 +215,7 @@ pub fn swarm(prop: &str, seed: u64) -> (GenCfg, Suffix, Shape) {
             c.max_objs = c.max_objs.min(16);
         }
         "C09" => {
+            c.bare_bias = 6;
             c.step = StepPolicy::Natural;
             c.pacings = pacing_family(&mut r, true);
             c.pacings.truncate(1);
